@@ -7,6 +7,8 @@ CONSTANTS
     PerNameOnSuccess = FALSE
     ListNamesCanonical = FALSE
     FindPrefersDirectChild = FALSE
+    NonRegularRefused = FALSE
+    ExcuseNonRegular = TRUE
     ExcuseMisplaced = TRUE
     ExcuseDecoy = TRUE
 SPECIFICATION Spec
